@@ -1077,6 +1077,57 @@ func (lf *litFPFacts) precision(RF []*ast.FuncDecl, hexRegion ast.Node) []Obliga
 				sites[k] = append(sites[k], site{lk.pos, v})
 			}
 		}
+		// a per-kind table indexed in place as the precision argument: big.ParseFloat(s, 10, bits[typ.Kind], mode)
+		ast.Inspect(fd.Body, func(n ast.Node) bool {
+			call, ok := n.(*ast.CallExpr)
+			if !ok || len(call.Args) != 4 || !isPkgFunc(calleeOf(info, call), "math/big", "ParseFloat") {
+				return true
+			}
+			ix, ok := unparen(call.Args[2]).(*ast.IndexExpr)
+			if !ok {
+				return true
+			}
+			if conv, isCall := unparen(call.Args[2]).(*ast.CallExpr); isCall && len(conv.Args) == 1 {
+				ix, _ = unparen(conv.Args[0]).(*ast.IndexExpr)
+			}
+			if ix == nil {
+				return true
+			}
+			tid, ok := unparen(ix.X).(*ast.Ident)
+			if !ok {
+				return true
+			}
+			tv, ok := info.ObjectOf(tid).(*types.Var)
+			if !ok || tv.Pkg() == nil || tv.Parent() != tv.Pkg().Scope() {
+				return true
+			}
+			for _, f := range c.pkg(pkgCONS).Syntax {
+				for _, d := range f.Decls {
+					gd, ok := d.(*ast.GenDecl)
+					if !ok || gd.Tok != token.VAR {
+						continue
+					}
+					for _, sp := range gd.Specs {
+						vs := sp.(*ast.ValueSpec)
+						for i, nm := range vs.Names {
+							if info.Defs[nm] != types.Object(tv) || i >= len(vs.Values) {
+								continue
+							}
+							if cl, ok := vs.Values[i].(*ast.CompositeLit); ok {
+								for _, el := range cl.Elts {
+									if kv, ok := el.(*ast.KeyValueExpr); ok && strings.Contains(exprString(kv.Key), "FloatKind") {
+										if v, ok := intConst(kv.Value); ok {
+											sites[exprString(kv.Key)] = append(sites[exprString(kv.Key)], site{call.Pos(), v})
+										}
+									}
+								}
+							}
+						}
+					}
+				}
+			}
+			return true
+		})
 	}
 	for _, kind := range sortedKeys(sites) {
 		ss := sites[kind]
